@@ -483,9 +483,9 @@ void lp_polynomial_neg(lp_polynomial_t* N, const lp_polynomial_t* A) {
 
   lp_polynomial_external_clean(A);
 
-  lp_polynomial_set_context(N, N->ctx);
+  lp_polynomial_set_context(N, A->ctx);
 
-  coefficient_neg(N->ctx, &N->data, &A->data);
+  coefficient_neg(A->ctx, &N->data, &A->data);
 }
 
 void lp_polynomial_mul(lp_polynomial_t* P, const lp_polynomial_t* A1, const lp_polynomial_t* A2) {
